@@ -41,16 +41,18 @@ STAGES = ['construct', 'find_slices', 'find_groups', 'find_layers', 'metar_msg']
 def chunk_specs():
     D = _deckfam.D
     return {
-        'A': (D({'h': 1000., 'n': 60, 'pattern': 'modes:125:125'}, T=60), None),
+        # A: a borderline deck that the mixture step splits under the AIC score but not under the (default) BIC score (scenes.WAIC)
+        'A': ({'gen': 'lcgbimodal', 'args': list(scenes.WAIC[0])}, None),
         'B': (D({'h': 1000., 'n': 60, 'pattern': 'modes:125:125'}, {'h': 5000., 'n': 7, 'where': 'spread'}, T=60),
               {'MIN_SEP_VALS': [100, 1000], 'MAX_HITS_OKTA0': 0, 'BASE_LVL_HEIGHT_PERC': 50, 'GROUPING_PRMS': {'height_pad_perc': 100},
-               'SLICING_PRMS': {'distance_threshold': 0.1}, 'LAYERING_PRMS': {'min_okta_to_split': 1}, 'LOWESS': {'frac': 0.9}}),
+               'SLICING_PRMS': {'distance_threshold': 0.1}, 'LAYERING_PRMS': {'min_okta_to_split': 1, 'gmm_kwargs': {'scores': 'AIC'}},
+               'LOWESS': {'frac': 0.9}}),
         'C': (D({'h': 1000., 'n': 40}, {'h': 1240., 'n': 40}, ceilos=['a', 'b'], ceilo_offsets=[0., 20.]),
               {'MSA': 1200, 'MSA_HIT_BUFFER': 100, 'BASE_LVL_LOOKBACK_PERC': 50, 'EXCLUDE_FOR_BASE_HEIGHT_CALC': ['b']}),
         'D': ({'gen': 'count', 'count': 50, 'total': 120, 'height': 1100., 'n_ceilos': 1}, {'MAX_HOLES_OKTA8': 5, 'LOWESS': {'frac': 0.9}}),
         'E': ({'gen': 'lcgdeck', 'args': list(scenes.W119[1])}, {'LAYERING_PRMS': {'gmm_kwargs': {'scores': 'AIC', 'delta_mul_gain': 1.0}}, 'MIN_SEP_VALS': [2000, 2000]}),
         # same data as A, parameters differing only in leaves a memo keyed by data-derived values would confuse
-        'G': (D({'h': 1000., 'n': 60, 'pattern': 'modes:125:125'}, T=60), {'MIN_SEP_VALS': [100, 1000], 'MAX_HOLES_OKTA8': 40}),
+        'G': ({'gen': 'lcgbimodal', 'args': list(scenes.WAIC[0])}, {'MIN_SEP_VALS': [100, 1000], 'MAX_HOLES_OKTA8': 40, 'LAYERING_PRMS': {'gmm_kwargs': {'scores': 'AIC'}}}),
         'F': (D({'h': 1000., 'n': 40, 'pattern': 'rampup'}, {'h': 1210., 'n': 40, 'pattern': 'rampup'}, {'h': 9000., 'n': 12, 'where': 'first'}),
               {'MSA': 3000, 'MSA_HIT_BUFFER': 0, 'SLICING_PRMS': {'distance_threshold': 0.1}}),
     }
@@ -61,7 +63,7 @@ TRIPLES = [('A', 'B', 'C')]
 
 
 def bound(tier):
-    return ('stage: 252 interleavings x 2 pairs + 3-chunk graph; pre-emption bound 1 on pair (A,B): A stopped at EVERY call/return point, B at every 2nd; real threads: bound 0 + ~26 bound-1 schedules for 2 pairs'
+    return ('stage: 252 interleavings x 2 pairs + 3-chunk graph; pre-emption bound 1 on pair (A,B): A stopped at EVERY source line/call/return inside ampycloud, B at every 2nd call/return; real threads: bound 0 + ~26 bound-1 schedules for 2 pairs'
             if tier == 'quick' else
             'stage: 252 interleavings x %d pairs + 3-chunk graph; pre-emption bound 1 at every line/call/return point, %d pairs x 2 orders; real threads: bound 0, bound 1 spread, bound 2 at call depth <= 2'
             % (len(PAIRS), len(PAIRS)))
@@ -76,16 +78,18 @@ def cases(tier):
         out.append({'kind': 'stage3', 'triple': list(t)})
     gran = 'call' if tier == 'quick' else 'line'
     pairs = PAIRS[:1] if tier == 'quick' else PAIRS
-    events = ('call', 'return') if gran == 'call' else ('call', 'return', 'line')
     for pi, p in enumerate(pairs):
         for order in (0, 1):
             x = p[order]
+            # quick: the first chunk is stopped at EVERY source line / call / return, the second at every 2nd call / return
+            g = 'line' if (tier != 'quick' or order == 0) else 'call'
+            events = ('call', 'return') if g == 'call' else ('call', 'return', 'line')
             npts = isolated(lambda: len(count_points(body(x), events)[0]))     # (the parent process itself never executes ampycloud code)
-            stride = 2 if (tier == 'quick' and order == 1) else 1     # quick: A pre-empted at EVERY point, B at every 2nd
+            stride = 2 if (tier == 'quick' and order == 1) else 1
             ks = list(range(0, npts, stride))
             nparts = max(1, len(ks) // 40)
             for part in range(nparts):
-                out.append({'kind': 'preempt', 'pair': list(p), 'order': order, 'gran': gran, 'part': part, 'nparts': nparts, 'stride': stride,
+                out.append({'kind': 'preempt', 'pair': list(p), 'order': order, 'gran': g, 'part': part, 'nparts': nparts, 'stride': stride,
                             'npoints': npts})
         for part in range(6):
             out.append({'kind': 'threads', 'pair': list(p), 'gran': 'call', 'bound2': tier != 'quick' and part == 0, 'part': part, 'nparts': 6})
